@@ -1,0 +1,69 @@
+//go:build verif
+
+// Contracts for package scorch: the ascending varint coding of snapshot epochs (read by
+// /verif/gocv; comment-only effect with the verif tag off, apart from the ghost lemma functions,
+// which are never called).
+
+package scorch
+
+// ---------------------------------------------------------------------------
+// C13: rollback points are found by walking the snapshot keys of the metadata store from the
+// youngest back to the chosen epoch: the key of an epoch must decode to that epoch and keys must
+// sort like epochs
+// ---------------------------------------------------------------------------
+
+// Proof obligations of lemmas are written as calls of verifAssertInt(cond): its precondition is cond.
+//@ func verifAssertInt
+//@   requires cond
+func verifAssertInt(cond bool) {}
+
+// the encoder appends 1 to 9 bytes to b and leaves the bytes of b alone
+//@ func encodeUvarintAscending
+//@   props C13
+//@   mode bv
+//@   inline
+//@   ensures len(result) >= len(b) + 1 && len(result) <= len(b) + 9
+
+// the decoder never indexes out of range, for any bytes
+//@ func decodeUvarintAscending
+//@   props C13
+//@   mode bv
+//@   inline
+//@   loop 0: unroll 8
+
+// Round trip: the key of an epoch decodes to exactly that epoch, with nothing left over, for all
+// 2^64 epochs.
+//@ func verifLemmaUvarintRoundTrip
+//@   props C13
+//@   mode bv
+//@   ensures true
+func verifLemmaUvarintRoundTrip(v uint64) {
+	k := encodeUvarintAscending(nil, v)
+	rest, w, err := decodeUvarintAscending(k)
+	verifAssertInt(err == nil)
+	verifAssertInt(w == v)
+	verifAssertInt(len(rest) == 0)
+}
+
+// Order: a smaller epoch has a key that is byte-wise smaller (first differing byte smaller, or a
+// proper prefix - which cannot happen here: the first byte fixes the length).
+//@ func verifLemmaUvarintOrder
+//@   props C13
+//@   mode bv
+//@   ensures true
+//@   loop 0: unroll 9
+func verifLemmaUvarintOrder(v1, v2 uint64) {
+	if v1 < v2 {
+		k1 := encodeUvarintAscending(nil, v1)
+		k2 := encodeUvarintAscending(nil, v2)
+		less := false
+		decided := false
+		for i := 0; i < 9; i++ {
+			if !decided && i < len(k1) && i < len(k2) && k1[i] != k2[i] {
+				less = k1[i] < k2[i]
+				decided = true
+			}
+		}
+		verifAssertInt(decided && less)
+	}
+}
